@@ -1371,7 +1371,7 @@ class Interp:
                 return self.cdict_method(recv, name, args)
             if isinstance(recv, VTuple) and name in ('index', 'count'):
                 raise Unsupported('tuple.%s' % name)
-            if isinstance(recv, (VRef, VCons, VExc, VModule, VClass, VAny, VNone)):
+            if isinstance(recv, (VRef, VCons, VExc, VModule, VClass, VAny, VNone, VModel)):
                 f = self.getattr_(recv, self.mangle(name))
                 args, kwargs = self.eval_args(n)
                 return self.call_value(f, args, kwargs, n)
@@ -1493,6 +1493,8 @@ class Interp:
         """returns z3 Bool"""
         if isinstance(c, VTuple):
             return z3.Or([self.isinstance_(v, x) for x in c.items])
+        if isinstance(c, VFunc) and c.name in BUILTIN_TYPES:
+            c = VClass(c.name)
         if not isinstance(c, VClass):
             raise Unsupported('isinstance against %r' % (c,))
         name = c.name.split('.')[-1]
@@ -1534,6 +1536,8 @@ class Interp:
             return fn('any_isinst_' + name, core.AnySort(), z3.BoolSort())(v.t)
         if isinstance(v, (VFunc, VClass)):
             return z3.BoolVal(name in ('Callable',) if isinstance(v, VFunc) else name == 'type')
+        if isinstance(v, VModel):
+            return z3.BoolVal(name in getattr(v, 'py_types', ()))
         raise Unsupported('isinstance(%r, %s)' % (v, name))
 
 
